@@ -1891,6 +1891,24 @@ enum Enum<T, K> {
 
 #![cfg_attr(docsrs, feature(doc_auto_cfg))]
 
+/// `quote!` whose own tokens carry `Span::mixed_site()`: the local bindings of the generated code (`f`, `state`,
+/// `other`, `_0`, ...) are then hygienic, so they can neither capture nor be captured by names the user wrote, such as
+/// a custom `method(state)`. Interpolated user tokens keep their own spans.
+#[allow(unused_macros)]
+macro_rules! quote {
+    ($($tt:tt)*) => {
+        ::quote::quote_spanned!(::proc_macro2::Span::mixed_site()=> $($tt)*)
+    };
+}
+
+/// `format_ident!` for the bindings of the generated code, see `quote!` above.
+#[allow(unused_macros)]
+macro_rules! format_ident {
+    ($($tt:tt)*) => {
+        ::quote::format_ident!($($tt)*, span = ::proc_macro2::Span::mixed_site())
+    };
+}
+
 mod common;
 #[allow(dead_code)]
 mod panic;
